@@ -59,10 +59,14 @@ Definition wf_template (t : list pseg) : bool := nodup_str (vars_of t) && wild_o
 
 (* two templates may coexist in one trie: at each common position equal
    literals recurse, different literals are fine, variables must carry the same
-   name, wildcards too; any other pairing of kinds conflicts.  (A template that
-   ends where the other continues imposes nothing — see finding F4.) *)
+   name, wildcards too; any other pairing of kinds conflicts.  A template that
+   ends where the other has its wildcard conflicts as well (the wildcard also
+   matches the empty remainder); one that ends where the other continues with
+   a literal or a variable imposes nothing. *)
 Fixpoint tcompat (t1 t2 : list pseg) : bool :=
   match t1, t2 with
+  | [], PWild _ :: _ => false
+  | PWild _ :: _, [] => false
   | [], _ => true
   | _, [] => true
   | PLit a :: t1', PLit b :: t2' => if str_eqb a b then tcompat t1' t2' else true
@@ -134,21 +138,6 @@ Section Spec.
   Definition acceptable (eps : list decl) (d : decl) : bool :=
     wf_template (fst d) && forallb (fun d' => negb (conflicts d d')) eps.
 
-  (* finding F4: the table holds a template [t] and also [t ++ {x:.*}], and
-     the request's path matches [t]; the code then sends the request to the
-     wildcard's node whatever [t]'s own handlers are *)
-  Definition tshape (t : list pseg) (segs : list str) : bool :=
-    match tmatch t segs with Some _ => true | None => false end.
-  Definition f4_pair (t t' : list pseg) : bool :=
-    match rev t' with
-    | PWild _ :: r => tpl_eqb t (rev r)
-    | _ => false
-    end.
-  Definition f4_class (eps : list decl) (segs : list str) : bool :=
-    existsb (fun d => tshape (fst d) segs &&
-                      existsb (fun d' => f4_pair (fst d) (fst d')) eps) eps.
-  Definition f4_table (eps : list decl) : bool :=
-    existsb (fun d => existsb (fun d' => f4_pair (fst d) (fst d')) eps) eps.
 End Spec.
 
 Arguments XFound {V}.
